@@ -9,6 +9,7 @@ import (
 	"context"
 	"sort"
 
+	"github.com/zeromicro/go-zero/core/syncx"
 	"go.etcd.io/etcd/api/v3/etcdserverpb"
 	"go.etcd.io/etcd/api/v3/mvccpb"
 	clientv3 "go.etcd.io/etcd/client/v3"
@@ -144,4 +145,58 @@ func (v *VCluster) Dump() string {
 	}
 	v.c.lock.RUnlock()
 	return s + "#l" + string(rune('0'+n))
+}
+
+// ---- end-to-end part (controlled scheduler): the process-global registry with an injected client ----
+
+// VResetGlobal empties the process-global registry and connection manager (fresh state per
+// execution; what an in-package test does between cases).
+func VResetGlobal() {
+	registry.lock.Lock()
+	registry.clusters = make(map[string]*cluster)
+	registry.lock.Unlock()
+	connManager = syncx.NewResourceManager()
+}
+
+// VInjectClient makes cli the etcd client of the cluster with these endpoints, the way
+// cluster.getClient would cache the result of NewClient — without cluster.newClient's
+// connectivity watcher, which needs a real *grpc.ClientConn.
+func VInjectClient(endpoints []string, cli EtcdClient) {
+	connManager.Inject(getClusterKey(append([]string(nil), endpoints...)), cli)
+}
+
+// VReloadGlobal calls the real cluster.reload of the global registry's cluster (what the
+// connectivity watcher's listener does with `go c.reload(cli)` after a reconnect).
+func VReloadGlobal(endpoints []string, cli EtcdClient) bool {
+	c, ok := registry.getCluster(append([]string(nil), endpoints...))
+	if !ok {
+		return false
+	}
+	c.reload(cli)
+	return true
+}
+
+// VGlobalValues renders the registry's copy (watchValue.values) of one watched prefix of the
+// global registry's cluster: "k=v,k=v" in key order, "-" if there is no such watcher.
+func VGlobalValues(endpoints []string, key string) string {
+	c, ok := registry.getCluster(append([]string(nil), endpoints...))
+	if !ok {
+		return "-"
+	}
+	c.lock.RLock()
+	defer c.lock.RUnlock()
+	w, ok := c.watchers[watchKey{key: key}]
+	if !ok {
+		return "-"
+	}
+	ks := make([]string, 0, len(w.values))
+	for k := range w.values {
+		ks = append(ks, k)
+	}
+	sort.Strings(ks)
+	s := ""
+	for _, k := range ks {
+		s += k + "=" + w.values[k] + ","
+	}
+	return s
 }
